@@ -49,6 +49,16 @@ pub struct Sched {
     pub lock_waits: u64,
     pub parks: u64,
     pub replay_diverged: bool,
+    /// a park returns spuriously with probability 1/spurious_den (0 = never); `park` is
+    /// documented to do that, so code that waits must re-check its condition
+    spurious_den: u64,
+    pub spurious: u64,
+}
+
+static SPURIOUS_DEN: std::sync::atomic::AtomicU64 = std::sync::atomic::AtomicU64::new(0);
+/// applies to the schedules started afterwards
+pub fn set_spurious_wakeups(one_in: u64) {
+    SPURIOUS_DEN.store(one_in, std::sync::atomic::Ordering::SeqCst);
 }
 
 static SCHED: Mutex<Option<Sched>> = Mutex::new(None);
@@ -204,6 +214,13 @@ pub fn on_site(site: u32, a: usize, _b: usize) {
                 std::thread::current().unpark();
                 return;
             }
+            if s.spurious_den > 0 && s.rnd() % s.spurious_den == 0 {
+                // spurious wake-up: the real park() that follows returns at once
+                s.spurious += 1;
+                s.progress();
+                std::thread::current().unpark();
+                return;
+            }
             s.st[me] = St::Parked;
             s.progress();
             if !s.pick(Some(me)) {
@@ -258,6 +275,7 @@ pub struct RunResult {
     pub parks: u64,
     pub watchdog: bool,
     pub replay_diverged: bool,
+    pub spurious: u64,
 }
 
 /// Runs `prog(thread index)` on `n` threads under the serial scheduler.
@@ -284,6 +302,8 @@ where
         lock_waits: 0,
         parks: 0,
         replay_diverged: false,
+        spurious_den: SPURIOUS_DEN.load(std::sync::atomic::Ordering::SeqCst),
+        spurious: 0,
     });
     let prog = std::sync::Arc::new(prog);
     let ready = std::sync::Arc::new(std::sync::Barrier::new(n + 1));
@@ -367,5 +387,6 @@ where
         parks: s.parks,
         watchdog,
         replay_diverged: s.replay_diverged,
+        spurious: s.spurious,
     }
 }
